@@ -283,6 +283,9 @@ func CountPlaceholders(q string) int {
 			}
 		}
 	}
+	if n > 65535 {
+		n = 65535 // the protocol cannot express more parameters
+	}
 	return n
 }
 
